@@ -17,7 +17,7 @@ TECHNIQUE = ("runtime monitoring: before/after observable-state snapshots around
 RULE = ("seeded P-code generator (Watch/Alarm/Block/Macro, Wait, thresholds, timed and untimed Pause/Hold, UOD commands "
         "of 1-6 ticks, Simulate) x scripted FT01 trajectory; a reference run lists the run-log items before every tick; "
         "every (tick, item index, cancel|force) is a candidate request, sampled with p=0.6 when the item offers that "
-        "request and p=0.12 when it does not (thorough: 1.0 / 0.35); each sampled request is issued in its own fresh "
+        "request and p=0.12 when it does not (thorough: 1.0 / 0.25); each sampled request is issued in its own fresh "
         "run. distinct = (method shape hash, tick, item index, kind); non-trivial = the request was judged by at least "
         "one rule (not-offered rule or an effect rule)")
 ASSUMPTIONS = [
@@ -36,10 +36,10 @@ REQUIRED = {"requests": 2000, "not_offered_requests": 800, "offered_accepted": 1
 
 
 def plan(tier, seed):
-    n = 128 if tier == "quick" else 4000
+    n = 128 if tier == "quick" else 600
     shards = 16 if tier == "quick" else 50
     return [{"seed": seed * 1000003 + i, "n": max(1, n // shards), "max_depth": 3 if tier == "quick" else 4,
-             "p_off": 0.6 if tier == "quick" else 1.0, "p_not": 0.12 if tier == "quick" else 0.35}
+             "p_off": 0.6 if tier == "quick" else 1.0, "p_not": 0.12 if tier == "quick" else 0.25}
             for i in range(shards)]
 
 
@@ -126,6 +126,8 @@ def check_case(case, res: Result):
         rec = rig.e.tracking.get_record_by_instance_id(iid)
         node = rig.e.tracking.get_known_node_by_id(rec.node_id) if rec is not None else None
         inst_states = [s.state_name.value for s in rec.states if s.instance_id == iid] if rec is not None else []
+        newer_instance = rec is not None and rec.last_instance_id != iid
+        node_reset = node is not None and state0 == "started" and not node.started
         live = _live(rig.cmdlog)
         s0 = CR.snapshot(rig)
         n_log0 = len(rig.cmdlog)
@@ -146,6 +148,11 @@ def check_case(case, res: Result):
                     mech = "C12.cancel_of_concluded_uod_item_cancels_running_namesake"
                 elif state0 in CR.CONCLUSIVE:
                     mech = "C12.request_on_concluded_item_accepted"
+                elif isinstance(node, p.NodeWithCondition) and (newer_instance or node_reset):
+                    # the item describes an earlier invocation of a Watch/Alarm line that never concluded (a newer instance
+                    # exists, or the node has been reset by the re-arm of its enclosing Alarm / a new macro call); the
+                    # request is validated against (and acts on) the node's *current* invocation
+                    mech = "C12.request_on_item_of_earlier_invocation_acts_on_current_one"
                 else:
                     mech = None
                 viol.append((mech, f"{descr} was answered with success although it was not offered; "
@@ -258,6 +265,11 @@ def check_case(case, res: Result):
                                          f"{descr} accepted, but the Watch was not activated within 2 interpreter ticks"))
                     else:
                         res.count("unjudged_force_fewer_than_2_running_ticks")
+            elif kind == "force" and isinstance(node, p.InterpreterCommandNode) and node.instruction_name == "Wait" \
+                    and not _being_waited_on(rig, node, newer_instance):
+                # stale item: the interrupt handler that was executing this Wait has been aborted (enclosing Block ended,
+                # enclosing Watch/Alarm no longer registered) or the item belongs to an earlier invocation
+                res.count("unjudged_force_wait_without_live_handler")
             elif kind == "force" and isinstance(node, p.InterpreterCommandNode) and node.instruction_name == "Wait":
                 running = 0
                 done = False
@@ -288,6 +300,18 @@ def check_case(case, res: Result):
         rig.close()
     for mech, msg in viol:
         res.violation(mech, msg, case)
+
+
+def _being_waited_on(rig, node, newer_instance) -> bool:
+    import openpectus.lang.model.ast as p
+    if newer_instance or node.completed or not node.started:
+        return False
+    for a in node.parents:
+        if isinstance(a, p.BlockNode) and a.block_ended:
+            return False
+        if isinstance(a, (p.NodeWithCondition, p.InjectedNode)):
+            return a.id in rig.e.interpreter._interrupts_map     # nearest enclosing interrupt scope decides
+    return True
 
 
 def _live(cmdlog) -> list[str]:
